@@ -662,8 +662,20 @@ class World:
         self.ctx[wk] = ("harness", "")
         try:
             h = self.harness()
-            cur = h.execute(sql, params)
-            h.commit()
+            try:
+                cur = h.execute(sql, params)
+                h.commit()
+            except sqlite3.OperationalError as e:
+                # a worker connection sits on the write lock (an injected busy error left its transaction open, as a
+                # real SQLITE_BUSY does until the caller commits or rolls back): the transport fault is skipped
+                if "locked" not in str(e).lower() and "busy" not in str(e).lower():
+                    raise
+                try:
+                    h.rollback()
+                except Exception:
+                    pass
+                self.probe("harness_write_skipped_locked")
+                return 0
             row = h.execute("SELECT max(seq) FROM sim_audit").fetchone()
             self.durable_seq = max(self.durable_seq, row[0] or 0)
             return cur.rowcount
